@@ -359,3 +359,46 @@ Proof.
   - destruct (i_pubt _ _ (inv_reachable _ _ R) P) as [X _]. exact (X E).
   - destruct (i_pubf _ _ (inv_reachable _ _ R) P) as [_ X]. congruence.
 Qed.
+
+(* ---- fresh subjects: a request reaches the query event it is addressed to and no other ---- *)
+Lemma route_from_in : forall subs i subj j, In j (route_from i subs subj) ->
+  (i <= j)%nat /\ nth_error subs (j - i) = Some subj.
+Proof.
+  induction subs as [|s r IH]; intros i subj j H; cbn [route_from] in H; [destruct H|].
+  destruct (N.eqb_spec s subj) as [->|NE].
+  - destruct H as [<-|H].
+    + split; [lia|]. replace (i - i)%nat with 0%nat by lia. reflexivity.
+    + destruct (IH _ _ _ H) as [L E]. split; [lia|]. replace (j - i)%nat with (S (j - S i)) by lia. exact E.
+  - destruct (IH _ _ _ H) as [L E]. split; [lia|]. replace (j - i)%nat with (S (j - S i)) by lia. exact E.
+Qed.
+
+Lemma route_from_complete : forall subs i subj k, nth_error subs k = Some subj -> In (i + k)%nat (route_from i subs subj).
+Proof.
+  induction subs as [|s r IH]; intros i subj k H; [destruct k; discriminate|].
+  cbn [route_from]. destruct k as [|k]; cbn [nth_error] in H.
+  - injection H as ->. rewrite N.eqb_refl. left. lia.
+  - replace (i + S k)%nat with (S i + k)%nat by lia.
+    destruct (N.eqb s subj); [right|]; apply IH; exact H.
+Qed.
+
+Lemma nodup_nth_inj : forall (l : list N) i j x, NoDup l -> nth_error l i = Some x -> nth_error l j = Some x -> i = j.
+Proof.
+  intros l i j x ND Hi Hj. apply (proj1 (NoDup_nth_error l) ND); [apply nth_error_Some; congruence|congruence].
+Qed.
+
+Lemma fresh_subjects_route_pf : forall subs i subj, NoDup subs -> nth_error subs i = Some subj ->
+  In i (route subs subj) /\ forall j, In j (route subs subj) -> j = i.
+Proof.
+  intros subs i subj ND H. split.
+  - apply (route_from_complete subs 0 subj i H).
+  - intros j IN. destruct (route_from_in _ _ _ _ IN) as [_ E]. replace (j - 0)%nat with j in E by lia.
+    apply (nodup_nth_inj subs j i subj ND E H).
+Qed.
+
+(* a step of query event i leaves every other query event as it was *)
+Lemma mstep_local_pf : forall cs ss i l ss' j, mstep cs ss (i, l) = Some ss' -> j <> i -> nth_error ss' j = nth_error ss j.
+Proof.
+  intros cs ss i l ss' j H NE. unfold mstep in H. cbn [fst snd] in H.
+  destruct (nth_error cs i); [|discriminate]. destruct (nth_error ss i); [|discriminate].
+  destruct (step true _ _ l); [|discriminate]. injection H as <-. apply nth_upd_other. congruence.
+Qed.
